@@ -15,7 +15,7 @@ const char g_dtor_tag_QueuedEvent;
 WList *g_rm_list; long g_rm_idx; WList *g_ins_list; long g_ins_idx;
 #endif
 #ifdef UNIT_QUEUE
-int g_pred[2]; _Bool g_verdict[2];
+int g_pred[2]; _Bool g_verdict[2]; int g_up_n, g_up_arg; _Bool g_up_ret;
 #endif
 _Bool g_dirty;
 int g_w11;
@@ -29,7 +29,7 @@ Slot g_S[2]; Slot g_anon; WList *g_rm_list; long g_rm_idx; WList *g_ins_list; lo
 Node *g_H; _Bool g_created, g_att, g_H_held, g_other_alive; CLT *g_att_cl; EDT *g_att_ed; int g_att_ev; ItemC g_IC, g_anonC; ItemD g_ID, g_anonD; int g_removes_H, g_removes_foreign;
 #endif
 #ifdef UNIT_REMOVERS
-void *g_wrapped_data; int g_arg; int g_l_calls, g_rm_calls, g_c_calls; unsigned long g_seq, g_l_seq, g_rm_seq; _Bool g_cond; void *g_cur_target; Node *g_cur_handle; int g_cur_event; void *g_cur_data; Node *g_new_handle;
+void *g_wrapped_data; int g_arg; int g_l_calls, g_rm_calls, g_c_calls; unsigned long g_seq, g_l_seq, g_rm_seq; _Bool g_cond; void *g_cur_cond; void *g_cur_target; Node *g_cur_handle; int g_cur_event; void *g_cur_data; Node *g_new_handle;
 #endif
 #ifdef UNIT_DISPATCHER
 int g_K; WPair g_anonP; int g_n, g_op; CLT *g_cl; int g_cbid; Node *g_hp; void *g_fn; Node *g_rh; _Bool g_rb; unsigned long g_seq, g_call_seq, g_mix_seq;
